@@ -442,140 +442,82 @@ func checkRelationshipCreate(r *Run, p *Prog) {
 			why = "validateResourcesExist does not cover both endpoints"
 		}
 		r.ObPath("C16.R3.create", "both endpoints are validated before the edge is created in "+fn.Top().Name, p.Position(cs.Call.Pos()), okV, why, path)
-		// cycle test: descendants := retrieveDescendants(ctx, <to or element of to>) ; _, exists := descendants[from] ; create only where exists is false
-		dcalls := CallsIn(fn, calleeIs(desc))
-		okC := len(dcalls) == 1
-		var p2 []string
-		why2 := fmt.Sprintf("%d retrieveDescendants call(s)", len(dcalls))
-		if okC {
-			dv := objOf(fn, func() ast.Expr {
-				var lhs ast.Expr
-				inspectNoLit(fn.Body, func(y ast.Node) bool {
-					if as, ok := y.(*ast.AssignStmt); ok && len(as.Rhs) == 1 && ast.Unparen(as.Rhs[0]) == dcalls[0] && len(as.Lhs) == 2 {
-						lhs = as.Lhs[0]
+		okC, why2, p2, selfOK, why3, p3 := cycleGuards(p, fn, desc, from, to, []Point{cp})
+		if len(CallsIn(fn, calleeIs(desc))) == 0 {
+			// the two tests extracted into a package-local guard: the guard returns nil only
+			// behind both tests, and the create runs only after the guard succeeded
+			okC, selfOK = false, false
+			for _, hc := range CallsIn(fn, func(o types.Object, call *ast.CallExpr) bool {
+				f, ok := o.(*types.Func)
+				if !ok || p.ByObj[f] == nil || p.ByObj[f].Body == nil || f.Pkg() != fn.Pkg.Types {
+					return false
+				}
+				sig := f.Type().(*types.Signature)
+				return sig.Results().Len() == 1 && isErrorType(sig.Results().At(0).Type()) && len(CallsIn(p.ByObj[f], calleeIs(desc))) > 0
+			}) {
+				h := p.ByObj[CalleeFunc(fn, hc)]
+				var hFrom, hTo types.Object
+				for i, a := range hc.Args {
+					switch {
+					case objOf(fn, a) == from:
+						hFrom = paramObj(h, i)
+					case objOf(fn, a) == to && to != nil:
+						hTo = paramObj(h, i)
+					default:
+						if sl, ok := ast.Unparen(a).(*ast.SelectorExpr); ok && sl.Sel.Name == "To" {
+							hTo = paramObj(h, i)
+						} else if rng, ok := enclosingLoop(fn, a).(*ast.RangeStmt); ok && rng.Value != nil && objOf(fn, rng.Value) == objOf(fn, a) && objOf(fn, rng.X) == to {
+							hTo = paramObj(h, i)
+						}
 					}
-					return true
-				})
-				return lhs
-			}())
-			// the boolean from "_, X := descendants[from]"
-			var inCycle types.Object
-			inspectNoLit(fn.Body, func(y ast.Node) bool {
-				if as, ok := y.(*ast.AssignStmt); ok && len(as.Lhs) == 2 && len(as.Rhs) == 1 {
-					if ix, ok := ast.Unparen(as.Rhs[0]).(*ast.IndexExpr); ok && objOf(fn, ix.X) == dv && dv != nil && objOf(fn, ix.Index) == from {
-						inCycle = objOf(fn, as.Lhs[1])
+				}
+				if hFrom == nil || hTo == nil {
+					why2, why3 = "the guard "+h.Name+" is not given the source and the target", "the guard "+h.Name+" is not given the source and the target"
+					continue
+				}
+				// exits of the guard that can return nil
+				hc2 := p.CFG(h)
+				var nilExits []Point
+				for _, ex := range hc2.Exits() {
+					if ex.Return == nil || len(ex.Return.Results) != 1 {
+						nilExits = append(nilExits, ex.P)
+						continue
 					}
-				}
-				return true
-			})
-			// the descendants are those of the target
-			targetOK := false
-			if len(dcalls[0].Args) == 2 {
-				a := dcalls[0].Args[1]
-				if objOf(fn, a) == to {
-					targetOK = true
-				}
-				if s, ok := ast.Unparen(a).(*ast.SelectorExpr); ok && s.Sel.Name == "To" {
-					targetOK = true // rel.To of the relationships built from the `to` slice
-				}
-			}
-			if inCycle == nil || !targetOK {
-				okC = false
-				why2 = fmt.Sprintf("cycle test not recognised (descendants[from] tested: %v, descendants of the target: %v)", inCycle != nil, targetOK)
-			} else {
-				if lp, isLoop := enclosingLoop(fn, dcalls[0]).(*ast.RangeStmt); isLoop {
-					if pth, w := c.succeededInLoopBefore(dcalls[0], lp, cp); pth != nil {
-						okC, p2, why2 = false, pth, w
+					res := ast.Unparen(ex.Return.Results[0])
+					if sl, ok := res.(*ast.SelectorExpr); ok {
+						if v, ok := h.Pkg.TypesInfo.Uses[sl.Sel].(*types.Var); ok && v.Parent() == v.Pkg().Scope() {
+							continue // a package-level error value
+						}
 					}
-				} else if pth, w := c.succeededBefore(dcalls[0], cp); pth != nil {
-					okC, p2, why2 = false, pth, w
-				}
-				// from the cycle test, the create is reachable only across "not a descendant"
-				gate := c.EdgesEstablishing(func(atom ast.Expr, val bool) bool { return !val && objOf(fn, atom) == inCycle })
-				tp := c.NodesWhere(func(n ast.Node) bool {
-					as, ok := n.(*ast.AssignStmt)
-					return ok && len(as.Lhs) == 2 && objOf(fn, as.Lhs[1]) == inCycle
-				})
-				if len(tp) == 1 {
-					q, vis := c.ReachAvoiding(tp, gate, nil)
-					if len(gate) == 0 || vis[cp] {
-						// loops: the create after the loop is reached by leaving the loop; require that the
-						// true edge of the test leaves the function
-						okC = false
-						p2 = q.PathTo(cp)
-						why2 = "the edge can be created although the source is a descendant of the target"
-						// accept when the only way past the test with inCycle==true is a return
-						trueEdges := c.EdgesEstablishing(func(atom ast.Expr, val bool) bool { return val && objOf(fn, atom) == inCycle })
-						allReturn := len(trueEdges) > 0
-						for e := range trueEdges {
-							_, v2 := c.ReachAvoiding([]Point{{e.B, len(e.B.Nodes) - 1}}, map[edge]bool{{e.B, e.Succ ^ 1}: true}, nil)
-							if v2[cp] {
-								allReturn = false
+					if id, ok := res.(*ast.Ident); ok && !isNilIdent(h, id) {
+						if o := objOf(h, id); o != nil {
+							if v, ok := o.(*types.Var); ok && v.Parent() == v.Pkg().Scope() {
+								continue
+							}
+							nn := errNonNilEdges(hc2, o)
+							_, vis := hc2.ReachAvoiding([]Point{hc2.Entry()}, nn, nil)
+							if len(nn) > 0 && !vis[ex.P] {
+								continue // returned only behind err != nil
 							}
 						}
-						if allReturn {
-							okC, p2, why2 = true, nil, "a positive cycle test leaves the function"
-						}
 					}
+					nilExits = append(nilExits, ex.P)
+				}
+				okC, why2, p2, selfOK, why3, p3 = cycleGuards(p, h, desc, hFrom, hTo, nilExits)
+				var pth []string
+				var w string
+				if lp, isLoop := enclosingLoop(fn, hc).(*ast.RangeStmt); isLoop {
+					pth, w = c.succeededInLoopBefore(hc, lp, cp)
+				} else {
+					pth, w = c.succeededBefore(hc, cp)
+				}
+				if pth != nil || w != "" {
+					okC, selfOK = false, false
+					why2, p2, why3, p3 = "guard "+h.Name+": "+w, pth, "guard "+h.Name+": "+w, pth
 				}
 			}
 		}
 		r.ObPath("C16.R3.create", "the edge is created only when the source is not a descendant of the target in "+fn.Top().Name, p.Position(cs.Call.Pos()), okC, why2, p2)
-		// the shortest cycle: the descendants of the target do not contain the target, so
-		// source == target must be refused by an explicit comparison whose "equal" edge
-		// leaves the function before the create
-		isSelfAtom := func(atom ast.Expr) (eqMeansTrue bool, ok bool) {
-			be, isBin := ast.Unparen(atom).(*ast.BinaryExpr)
-			if !isBin || (be.Op != token.EQL && be.Op != token.NEQ) {
-				return false, false
-			}
-			role := func(e ast.Expr) string {
-				e = ast.Unparen(e)
-				if o := objOf(fn, e); o != nil {
-					switch o {
-					case from:
-						return "from"
-					case to:
-						return "to"
-					}
-					// range variable over the `to` slice
-					if rng, ok := enclosingLoop(fn, e).(*ast.RangeStmt); ok && rng.Value != nil && objOf(fn, rng.Value) == o && objOf(fn, rng.X) == to {
-						return "to"
-					}
-				}
-				if s, ok := e.(*ast.SelectorExpr); ok {
-					switch s.Sel.Name {
-					case "To":
-						return "to"
-					case "From":
-						return "from"
-					}
-				}
-				return ""
-			}
-			a, b := role(be.X), role(be.Y)
-			if a == "" || b == "" || a == b {
-				return false, false
-			}
-			return be.Op == token.EQL, true
-		}
-		equalEdges := c.EdgesEstablishing(func(atom ast.Expr, val bool) bool {
-			eq, ok := isSelfAtom(atom)
-			return ok && val == eq
-		})
-		selfOK, why3 := len(equalEdges) > 0, "no comparison of the source with the target"
-		var p3 []string
-		if selfOK {
-			var starts []Point
-			for e := range equalEdges {
-				starts = append(starts, Point{e.B.Succs[e.Succ], -1})
-			}
-			q, vis := c.ReachAvoiding(starts, nil, nil)
-			if vis[cp] {
-				selfOK, why3, p3 = false, "the create is reachable although source == target", q.PathTo(cp)
-			}
-			// and every target is compared: in a loop over the targets the comparison is in the loop
-		}
 		r.ObPath("C16.R3.self", "a relationship from a resource to itself is refused in "+fn.Top().Name, p.Position(cs.Call.Pos()), selfOK, why3+" (a self edge is a cycle and makes retrieveDescendants recurse without end)", p3)
 	}
 	// DefineRelationship: an existing edge is a no-op returning nil (err is nil on that path)
@@ -663,4 +605,171 @@ func checkRelationshipCreate(r *Run, p *Prog) {
 	}
 	recursive := len(CallsIn(desc, calleeIs(desc))) == 1
 	r.ObPath("C16.R3.create", "retrieveDescendants records every child it walks and recurses into it", p.Position(loop.Pos()), ok && recursive, "a child that is skipped (or an early non-error return) hides a descendant from the cycle test, so a cycle-closing edge is accepted", path)
+}
+
+// cycleGuards decides, inside fn, that the target points are reached only (1) after
+// retrieveDescendants(<to>) succeeded and across the "from is not among them" edge and
+// (2) past an explicit source == target comparison whose equal edge leaves.
+func cycleGuards(p *Prog, fn *FuncNode, desc *FuncNode, from, to types.Object, targets []Point) (okC bool, why2 string, p2 []string, selfOK bool, why3 string, p3 []string) {
+	c := p.CFG(fn)
+	reaches := func(vis map[Point]bool) (Point, bool) {
+		for _, t := range targets {
+			if vis[t] {
+				return t, true
+			}
+		}
+		return Point{}, false
+	}
+	// cycle test: descendants := retrieveDescendants(ctx, <to or element of to>) ; _, exists := descendants[from] ; create only where exists is false
+	dcalls := CallsIn(fn, calleeIs(desc))
+	okC = len(dcalls) == 1
+	why2 = fmt.Sprintf("%d retrieveDescendants call(s)", len(dcalls))
+	if okC {
+		dv := objOf(fn, func() ast.Expr {
+			var lhs ast.Expr
+			inspectNoLit(fn.Body, func(y ast.Node) bool {
+				if as, ok := y.(*ast.AssignStmt); ok && len(as.Rhs) == 1 && ast.Unparen(as.Rhs[0]) == dcalls[0] && len(as.Lhs) == 2 {
+					lhs = as.Lhs[0]
+				}
+				return true
+			})
+			return lhs
+		}())
+		// the boolean from "_, X := descendants[from]"
+		var inCycle types.Object
+		inspectNoLit(fn.Body, func(y ast.Node) bool {
+			if as, ok := y.(*ast.AssignStmt); ok && len(as.Lhs) == 2 && len(as.Rhs) == 1 {
+				if ix, ok := ast.Unparen(as.Rhs[0]).(*ast.IndexExpr); ok && objOf(fn, ix.X) == dv && dv != nil && objOf(fn, ix.Index) == from {
+					inCycle = objOf(fn, as.Lhs[1])
+				}
+			}
+			return true
+		})
+		// the descendants are those of the target
+		targetOK := false
+		if len(dcalls[0].Args) == 2 {
+			a := dcalls[0].Args[1]
+			if objOf(fn, a) == to {
+				targetOK = true
+			}
+			if s, ok := ast.Unparen(a).(*ast.SelectorExpr); ok && s.Sel.Name == "To" {
+				targetOK = true // rel.To of the relationships built from the `to` slice
+			}
+		}
+		if inCycle == nil || !targetOK {
+			okC = false
+			why2 = fmt.Sprintf("cycle test not recognised (descendants[from] tested: %v, descendants of the target: %v)", inCycle != nil, targetOK)
+		} else {
+			for _, cp := range targets {
+				if lp, isLoop := enclosingLoop(fn, dcalls[0]).(*ast.RangeStmt); isLoop {
+					if pth, w := c.succeededInLoopBefore(dcalls[0], lp, cp); pth != nil {
+						okC, p2, why2 = false, pth, w
+					}
+				} else if pth, w := c.succeededBefore(dcalls[0], cp); pth != nil {
+					okC, p2, why2 = false, pth, w
+				}
+			}
+			// from the cycle test, the create is reachable only across "not a descendant"
+			gate := c.EdgesEstablishing(func(atom ast.Expr, val bool) bool { return !val && objOf(fn, atom) == inCycle })
+			tp := c.NodesWhere(func(n ast.Node) bool {
+				as, ok := n.(*ast.AssignStmt)
+				return ok && len(as.Lhs) == 2 && objOf(fn, as.Lhs[1]) == inCycle
+			})
+			// every condition that reads the result of the test: its edges either establish
+			// "not a descendant" or must not lead to the create
+			testEdges := map[edge]bool{}
+			for _, b := range c.G.Blocks {
+				cond := Cond(b)
+				if cond == nil {
+					continue
+				}
+				reads := false
+				ast.Inspect(cond, func(y ast.Node) bool {
+					if id, ok := y.(*ast.Ident); ok && objOf(fn, id) == inCycle {
+						reads = true
+					}
+					return true
+				})
+				if !reads {
+					continue
+				}
+				for si := range b.Succs {
+					testEdges[edge{b, si}] = true
+				}
+			}
+			switch {
+			case len(tp) != 1 || len(gate) == 0:
+				okC, why2 = false, "the result of descendants[from] is never tested false before the create"
+			default:
+				q, vis := c.ReachAvoiding(tp, testEdges, nil)
+				if cp, hit := reaches(vis); hit {
+					okC, p2, why2 = false, q.PathTo(cp), "the create is reachable without the cycle test having been read"
+				}
+				for e := range testEdges {
+					if gate[e] {
+						continue
+					}
+					q2, v2 := c.ReachAvoiding([]Point{{e.B.Succs[e.Succ], -1}}, nil, nil)
+					if cp, hit := reaches(v2); hit {
+						okC, p2, why2 = false, q2.PathTo(cp), "the edge can be created although the source may be a descendant of the target (an edge of the test at "+posOf(p, Cond(e.B))+" that does not establish 'not a descendant' leads to it)"
+					}
+				}
+			}
+		}
+	}
+	// the shortest cycle: the descendants of the target do not contain the target, so
+	// source == target must be refused by an explicit comparison whose "equal" edge
+	// leaves the function before the create
+	isSelfAtom := func(atom ast.Expr) (eqMeansTrue bool, ok bool) {
+		be, isBin := ast.Unparen(atom).(*ast.BinaryExpr)
+		if !isBin || (be.Op != token.EQL && be.Op != token.NEQ) {
+			return false, false
+		}
+		role := func(e ast.Expr) string {
+			e = ast.Unparen(e)
+			if o := objOf(fn, e); o != nil {
+				switch o {
+				case from:
+					return "from"
+				case to:
+					return "to"
+				}
+				// range variable over the `to` slice
+				if rng, ok := enclosingLoop(fn, e).(*ast.RangeStmt); ok && rng.Value != nil && objOf(fn, rng.Value) == o && objOf(fn, rng.X) == to {
+					return "to"
+				}
+			}
+			if s, ok := e.(*ast.SelectorExpr); ok {
+				switch s.Sel.Name {
+				case "To":
+					return "to"
+				case "From":
+					return "from"
+				}
+			}
+			return ""
+		}
+		a, b := role(be.X), role(be.Y)
+		if a == "" || b == "" || a == b {
+			return false, false
+		}
+		return be.Op == token.EQL, true
+	}
+	equalEdges := c.EdgesEstablishing(func(atom ast.Expr, val bool) bool {
+		eq, ok := isSelfAtom(atom)
+		return ok && val == eq
+	})
+	selfOK, why3 = len(equalEdges) > 0, "no comparison of the source with the target"
+	if selfOK {
+		var starts []Point
+		for e := range equalEdges {
+			starts = append(starts, Point{e.B.Succs[e.Succ], -1})
+		}
+		q, vis := c.ReachAvoiding(starts, nil, nil)
+		if cp, hit := reaches(vis); hit {
+			selfOK, why3, p3 = false, "the create is reachable although source == target", q.PathTo(cp)
+		}
+		// and every target is compared: in a loop over the targets the comparison is in the loop
+	}
+	return
 }
